@@ -127,7 +127,8 @@ Definition sub (p : path) (i : nat) : path := (fst p, snd p ++ [i]).
 (** element [i] of a slice with backing [base] and offset [off] *)
 Definition elem_path (base : path) (off i : nat) : path := sub base (off + i).
 
-Definition nil_slice : val := VSlice (0, []) 0 0 0.
+(** the nil slice is [VNil] as well; it behaves as a slice of capacity 0 *)
+Definition nil_slice : val := VNil.
 
 (** An assignment destination: an addressable sub-object or a map entry. *)
 Inductive target := TPath (p : path) | TMap (l : loc) (k : Z).
@@ -147,6 +148,7 @@ Definition slice_of (h : heap) (b : val) : option (path * nat * nat * nat) :=
   match b with
   | VSlice base off len cap => Some (base, off, len, cap)
   | VPtr p => match read h p with Some (VArr es) => Some (p, 0, length es, length es) | _ => None end
+  | VNil => Some ((0, []), 0, 0, 0)
   | _ => None
   end.
 
@@ -265,7 +267,7 @@ with g_rv (h : heap) (e : env) (x : rv) {struct x} : option val :=
       end
   | RCap x =>
       v <- g_rv h e x ;;
-      match v with VSlice _ _ _ cap => Some (VInt (Z.of_nat cap)) | _ => None end
+      match v with VSlice _ _ _ cap => Some (VInt (Z.of_nat cap)) | VNil => Some (VInt 0%Z) | _ => None end
   | RSlice b lo hi mx =>
       bv <- g_rv h e b ;;
       sv <- slice_of h bv ;;
@@ -313,8 +315,8 @@ Fixpoint g_lvs (h : heap) (e : env) (ls : list lv) {struct ls} : option (list ta
 Definition growth := nat -> nat -> nat -> nat.
 
 Definition append_vals (grow : growth) (h : heap) (ek : nat) (zero : val) (sv : val) (vs : list val) : option (val * heap) :=
-  match sv with
-  | VSlice base off len cap =>
+  match (match sv with VSlice base off len cap => Some (base, off, len, cap) | VNil => Some ((0, []), 0, 0, 0) | _ => None end) with
+  | Some (base, off, len, cap) =>
       let n := length vs in
       if len + n <=? cap then
         h' <- write_elems h base (off + len) vs ;; Some (VSlice base off (len + n) cap, h')
@@ -323,7 +325,7 @@ Definition append_vals (grow : growth) (h : heap) (ek : nat) (zero : val) (sv : 
         let nc := grow ek cap (len + n) in
         let '(l, h') := alloc h (CVal (VArr (old ++ vs ++ repeat zero (nc - (len + n))))) in
         Some (VSlice (l, []) 0 (len + n) (Nat.max nc (len + n)), h')
-  | _ => None
+  | None => None
   end.
 
 Fixpoint zip_kvs (ks vs : list val) : option (list (Z * val)) :=
@@ -436,6 +438,7 @@ Fixpoint show (t : ty) (v : val) {struct t} : list Z :=
       | VSlice base off len cap =>
           Z.of_nat len :: Z.of_nat cap ::
           match read_elems h base off len with Some es => flat_map (show t') es | None => [(-7)%Z] end
+      | VNil => [0%Z; 0%Z]
       | _ => [(-7)%Z]
       end
   | TMapT t' =>
@@ -525,6 +528,7 @@ Definition range_len (h : heap) (rk : rkind) (v : val) : option nat :=
   match rk, v with
   | RkArr, VArr es => Some (length es)
   | RkSlice, VSlice _ _ len _ => Some len
+  | RkSlice, VNil => Some 0
   | RkPtr, VPtr p => match read h p with Some (VArr es) => Some (length es) | _ => None end
   | _, _ => None
   end.
